@@ -491,10 +491,15 @@ class GriffeLoader:
                         except (ImportError, LoadingError) as error:
                             logger.debug("Could not follow alias %s: %s", member.path, error)
                             load_failures.add(package)
+                        else:
+                            # Its wildcard imports were only expanded without loading other packages:
+                            # expand them with the same setting as the rest (a next call would, otherwise).
+                            with suppress(KeyError):
+                                self.expand_wildcards(self.modules_collection.get_member(package), external=external)
                 except CyclicAliasError as error:
                     logger.debug(str(error))
                 else:
-                    logger.debug("Alias %s was resolved to %s", member.path, member.final_target.path)  # type: ignore[union-attr]
+                    logger.debug("Alias %s was resolved to %s", member.path, member.target_path)  # type: ignore[union-attr]
                     resolved.add(member.path)
 
             # Recurse into unseen modules and classes.
